@@ -123,11 +123,101 @@ func runC09(c *Ctx, tier string) {
 		if n < 2 {
 			c.Undecided("C09-G1", "Optimizer.Vectorize", "fewer than 2 vectorize() calls found")
 		}
-		// isScanWithVectors
+		// isScanWithVectors: the function that actually examines the snapshot may be isScanWithVectors
+		// itself or a helper of the same package it calls (a refactoring must not raise an alarm).
+		iswTop := isw
 		var hv *ssa.Call
-		for _, ci := range allCalls(isw) {
-			if cc := ci.Common(); cc.IsInvoke() && cc.Method.Name() == "HasVector" {
-				hv, _ = ci.(*ssa.Call)
+		var chain []*ssa.Function
+		{
+			var find func(fn *ssa.Function, depth int, path []*ssa.Function) bool
+			find = func(fn *ssa.Function, depth int, path []*ssa.Function) bool {
+				for _, ci := range allCalls(fn) {
+					if cc := ci.Common(); cc.IsInvoke() && cc.Method.Name() == "HasVector" {
+						hv, _ = ci.(*ssa.Call)
+						chain = append(append([]*ssa.Function{}, path...), fn)
+						return true
+					}
+				}
+				if depth >= 2 {
+					return false
+				}
+				for _, ci := range allCalls(fn) {
+					callee := ci.Common().StaticCallee()
+					if callee != nil && callee.Blocks != nil && p.PkgOf(callee) == "compiler/optimizer" && callee != fn {
+						if find(callee, depth+1, append(path, fn)) {
+							return true
+						}
+					}
+				}
+				return false
+			}
+			find(iswTop, 0, nil)
+		}
+		if hv != nil {
+			isw = hv.Parent()
+		}
+		c.Rule("C09-G2", "the vectorize decision is computed from the snapshot of the scan's own commit on every call: the snapshot examined is Snapshot(scan.Commit), and whatever isScanWithVectors returns is a constant false or the result of that examination — never a remembered answer (vectors are per commit: another branch of the same pool may lack them)")
+		if hv != nil {
+			okCommit := false
+			for _, ci := range allCalls(isw) {
+				if calleeName(ci.Common()) == "(*lake.Pool).Snapshot" {
+					for _, a := range ci.Common().Args {
+						if dependsOn(a, func(v ssa.Value) bool {
+							fa, ok := v.(*ssa.FieldAddr)
+							return ok && namedOf(fa.X.Type()) == "compiler/ast/dag.SeqScan" && fieldName(fa.X.Type(), fa.Field) == "Commit"
+						}) {
+							okCommit = true
+						}
+					}
+				}
+			}
+			if okCommit {
+				c.OK("C09-G2", "vector check examines Snapshot(scan.Commit)", hv.Pos(), fnName(isw))
+			} else {
+				c.Fail("C09-G2", "vector check examines Snapshot(scan.Commit)", hv.Pos(), "the snapshot examined for vectors is not the snapshot of the scan's commit")
+			}
+			// every function on the chain above the examiner returns only false or the examiner's answer
+			for i := 0; i+1 < len(chain); i++ {
+				fn, next := chain[i], chain[i+1]
+				bad := ""
+				for _, b := range fn.Blocks {
+					ret, ok := b.Instrs[len(b.Instrs)-1].(*ssa.Return)
+					if !ok || len(ret.Results) == 0 {
+						continue
+					}
+					seen := map[ssa.Value]bool{}
+					var leaves func(v ssa.Value)
+					leaves = func(v ssa.Value) {
+						if seen[v] || bad != "" {
+							return
+						}
+						seen[v] = true
+						switch x := v.(type) {
+						case *ssa.Const:
+							if x.Value != nil && x.Value.String() == "true" {
+								bad = "the constant true"
+							}
+						case *ssa.Phi:
+							for _, e := range x.Edges {
+								leaves(e)
+							}
+						case *ssa.Extract:
+							if call, ok := x.Tuple.(*ssa.Call); ok && call.Call.StaticCallee() == next && x.Index == 0 {
+								return
+							}
+							bad = "a value that does not come from " + fnName(next)
+						default:
+							bad = "a value that does not come from " + fnName(next) + " (" + short(v.String()) + ")"
+						}
+					}
+					leaves(ret.Results[0])
+				}
+				construct := fnName(fn) + " returns the examiner's answer"
+				if bad != "" {
+					c.Fail("C09-G2", construct, fn.Pos(), "on some path the function returns "+bad+": a remembered or otherwise detached answer is used for this scan, so a scan of a commit whose objects lack vectors is vectorized (the query fails or skips data) because another commit of the same pool had them")
+				} else {
+					c.OK("C09-G2", construct, fn.Pos(), "false or the result of "+fnName(next))
+				}
 			}
 		}
 		retConst := func(in ssa.Instruction, want bool) bool {
